@@ -3,33 +3,47 @@ C05, full strength: direct delivery, epidemic flooding and restart along EVERY h
 -/
 import Dtn7.Lemmas.NodeDirect
 import Dtn7.Lemmas.NodeFull
+import Dtn7.Lemmas.NodeEpi
 
 namespace Dtn7.Node
 
 /-- The C05 clauses other than `Retained` hold at every step of EVERY history (no domain hypothesis), for
-the code as it is. -/
+the code as it is: flooding and restart always; direct delivery with the closed gate of epidemic routing as
+the only possible failure — and with `gateDirect` (the gate lets a bundle through whose destination is
+connected) without any failure. -/
 theorem clauses_run (c : Cfg) (hc : Cur c) (env : Env) :
-    ∀ (h : List Event) (s : SpecSt) (n : Node) (i : Nat), RInvF c s n →
+    ∀ (h : List Event) (s : SpecSt) (n : Node) (i : Nat), RInvF c s n → (c.algo = .epidemic → EpiOk n) →
     firstFail (fun c s o => (floodFail c s o).orElse fun _ => restartFail s o) c s i
       ((trace env n h).map obsOf) = none ∧
-    ∀ j, firstFail directFail c s i ((trace env n h).map obsOf) ≠ some (j, "direct-not-sent")
-  | [], _, _, _, _ => ⟨rfl, fun _ h => by simp [trace, firstFail] at h⟩
-  | e :: h, s, n, i, inv => by
+    (∀ j, firstFail directFail c s i ((trace env n h).map obsOf) ≠ some (j, "direct-not-sent")) ∧
+    (c.gateDirect = true → firstFail directFail c s i ((trace env n h).map obsOf) = none)
+  | [], _, _, _, _, _ => ⟨rfl, fun _ h => by simp [trace, firstFail] at h, fun _ => rfl⟩
+  | e :: h, s, n, i, inv, he => by
     simp only [trace, List.map_cons, firstFail]
     have h2 := (rinvF_step c hc env e s n inv).2
-    have ih := clauses_run c hc env h _ _ (i + 1) h2
-    constructor
+    have he2 : c.algo = .epidemic → EpiOk (step env n e).1 := fun ha =>
+      epiOk_step env n e (by rw [inv.v.cfg]; exact ha) (by rw [inv.v.cfg]; exact hc.seq)
+        (by rw [inv.v.cfg]; exact hc.skip) (he ha)
+    have ih := clauses_run c hc env h _ _ (i + 1) h2 he2
+    refine ⟨?_, ?_, ?_⟩
     · rw [flood_step c env e s n inv.v, restart_step c env e s n inv.v]
       simp only [Option.orElse]
       exact ih.1
     · intro j
-      have hd := direct_step c env e s n inv.v
       cases hdf : directFail c s (obsOf (e, (step env n e).2, (step env n e).1)) with
-      | none => simp only; exact ih.2 j
+      | none => simp only; exact ih.2.1 j
       | some cls =>
         simp only
         intro h
         cases h
-        exact hd hdf
+        have := (direct_step c env e s n inv.v he _ hdf).1
+        exact absurd this (by decide)
+    · intro hg
+      cases hdf : directFail c s (obsOf (e, (step env n e).2, (step env n e).1)) with
+      | none => simp only; exact ih.2.2 hg
+      | some cls =>
+        have := (direct_step c env e s n inv.v he _ hdf).2
+        rw [hg] at this
+        cases this
 
 end Dtn7.Node
